@@ -2,7 +2,7 @@
    Machines: Ops/Groups.v (group_by_until / group_by as a machine of the window-aware runner
    Ops/MultiWin.v; partition = publish + ref_count + two filters as a model of its own). *)
 From RxVerif Require Import Base.Prelude Ops.Machine Ops.MultiWin Ops.MultiWinFacts Ops.Groups Ops.GroupFacts
-  Ops.WindowCountFacts Ops.GroupRunFacts Ops.GroupsSubject Ops.GroupsIndexed Ops.GroupsIndexedFacts.
+  Ops.WindowCountFacts Ops.GroupRunFacts Ops.GroupsSubject Ops.GroupsIndexed Ops.GroupsIndexedFacts Ops.PartitionRunFacts.
 
 (* ---- group_by / group_by_until: EVERY state (= every input history), every callback -------- *)
 (* the key has a live writer: the element goes to that group and nowhere else; no group is handed *)
@@ -297,3 +297,42 @@ Example C19_witness_partition_indexed :
   = [OSub 0%nat; OWin 0%nat (Next 10); OWin 0%nat (Next 30); OWin 1%nat (Next 30);
      OWin 0%nat Done; OWin 1%nat Done; OUnsub 0%nat].
 Proof. vm_compute. reflexivity. Qed.
+
+(* ---- partition: whole runs (Ops/PartitionRunFacts.v) ---------------------------------------- *)
+(* total predicate, conforming source, both outputs subscribed before the source emits: output 0 receives
+   exactly the elements satisfying the predicate, output 1 exactly the others, each in source order and
+   followed by the source's terminal (ALL xs, all three terminations) *)
+Theorem C19_partition_closed_form : forall A (pf : A -> bool) (xs : list A) tm,
+  let tr := pt_run (fun x => Ok (pf x)) ((0, ISubWin 0%nat) :: (0, ISubWin 1%nat) :: src_events xs tm) in
+  wevents 0 tr = map Next (filter pf xs) ++ term_ev tm
+  /\ wevents 1 tr = map Next (filter (fun x => negb (pf x)) xs) ++ term_ev tm.
+Proof. exact @partition_closed_form. Qed.
+Print Assumptions C19_partition_closed_form.
+(* the same from ANY connected, unstopped state: an output with exactly one live subscription (whatever
+   else is subscribed, in whatever order) receives its side of the predicate ... *)
+Theorem C19_partition_from_connected : forall A (pf : A -> bool) subs g k (xs : list A) tm,
+  count_of g subs = 1%nat ->
+  wevents g (pt_run_from (fun x => Ok (pf x)) (PtSt subs true None) k (src_events xs tm))
+  = map Next (filter (fun x => goes_to (pf x) g) xs) ++ term_ev tm.
+Proof. exact @partition_from_connected. Qed.
+Print Assumptions C19_partition_from_connected.
+(* ... and an output nobody is subscribed to sees nothing, not even the terminal *)
+Theorem C19_partition_unsubscribed_output_silent : forall A (pf : A -> bool) subs g k (xs : list A) tm,
+  count_of g subs = 0%nat ->
+  wevents g (pt_run_from (fun x => Ok (pf x)) (PtSt subs true None) k (src_events xs tm)) = [].
+Proof. exact @partition_unsubscribed_silent. Qed.
+Print Assumptions C19_partition_unsubscribed_output_silent.
+(* the published source is shared and hot: output 1 subscribed after the prefix xs1 misses its share of
+   xs1; output 0 sees its share of everything *)
+Theorem C19_partition_late_subscriber : forall A (pf : A -> bool) (xs1 xs2 : list A) tm,
+  let tr := pt_run (fun x => Ok (pf x)) ((0, ISubWin 0%nat) :: src_events xs1 TNever
+                                         ++ (0, ISubWin 1%nat) :: src_events xs2 tm) in
+  wevents 0 tr = map Next (filter pf (xs1 ++ xs2)) ++ term_ev tm
+  /\ wevents 1 tr = map Next (filter (fun x => negb (pf x)) xs2) ++ term_ev tm.
+Proof. exact @partition_late_subscriber. Qed.
+Print Assumptions C19_partition_late_subscriber.
+Example C19_witness_partition_late_subscriber :
+  let tr := pt_run (fun x => Ok (x <? 5)) ((0, ISubWin 0%nat) :: src_events [3; 8] TNever
+                                           ++ (0, ISubWin 1%nat) :: src_events [9; 4; 7] TDone) in
+  wevents 0 tr = [Next 3; Next 4; Done] /\ wevents 1 tr = [Next 9; Next 7; Done].
+Proof. vm_compute. auto. Qed.
